@@ -477,7 +477,8 @@ def is_known_acac(kind, detail):
     return kind == 'grant-left-on-refused-preflight' and detail.get('left') == [(M.ACAC, 'true')]
 
 
-def check_exchange(rec, bench, fw, ctx, app, cfg, policy, target, shape, origin, origin_name='Origin', plan_spec=None):
+def check_exchange(rec, bench, fw, ctx, app, cfg, policy, target, shape, origin, origin_name='Origin', plan_spec=None,
+                   base_k=None, extra=None):
     method, acrm, acrh = shape
     success = target.success(method)
     live = True
@@ -485,10 +486,12 @@ def check_exchange(rec, bench, fw, ctx, app, cfg, policy, target, shape, origin,
         # dependent middleware: a component whose process_request never ran has no process_response (documented)
         live = False
     ex = M.Exchange(origin, method, acrm, acrh, success, live=live, allow_expected=target.allow_expected)
-    base, base_bad = bench.base(fw, base_kind(ctx), target, shape, origin, origin_name)
+    base, base_bad = bench.base(fw, base_k or base_kind(ctx), target, shape, origin, origin_name)
     got, got_bad = run_one(fw, app, target, shape, origin, origin_name)
     witness = {'fw': fw, 'ctx': ctx, 'config': cfg, 'target': target.name, 'path': target.path, 'query': target.query,
                'shape': list(shape), 'origin': origin, 'origin_name': origin_name, 'plan': plan_spec}
+    if extra:
+        witness.update(extra)
     rec.count('fw.' + fw)
     rec.count('ctx.' + ctx)
     cell = M.classify(policy, ex)
@@ -701,6 +704,264 @@ def exhaustive(rec, bench):
                         rec.count('enable.exchanges')
 
 
+# ---------------------------------------------------------------- configuration histories
+#
+# Reading of "the configuration" (recorded in rec.assumptions): the VALUE held by the component's public
+# attributes allow_origins / allow_credentials / expose_headers at the time of the request.  The constructor
+# fills them from its arguments as a snapshot (str -> one origin, any iterable -> immutable set, header list ->
+# one string), so (a) what the caller later does to a collection it passed is not a configuration act, (b) an
+# assignment to a public attribute (subclass initialiser, run-time tightening) is, and (c) a component that the
+# app REFUSED (cors_enable duplicate guard) is not part of the app's configuration, whatever happens later.
+
+N_AO = [('str', '*'), ('frozenset', [OA]), ('frozenset', [OA, OB]), ('frozenset', [OB, OC])]
+N_AC = [('frozenset', []), ('str', '*'), ('frozenset', [OA]), ('frozenset', [OC]), ('frozenset', [OA, OC])]
+N_EH = [('none', None), ('str', 'X-One'), ('str', 'X-One, X-Two')]
+HIST_ORIGINS = [None, OA, OB, OC, 'https://evil.test', 'https://app.example']
+HIST_SHAPES = [SHAPES[0], SHAPES[7]]
+HIST_TARGET_NAMES = ('auto', 'plan1', 'plan4')
+ATTRS = ('allow_origins', 'allow_credentials', 'expose_headers')
+
+
+def hist_targets():
+    return [t for t in all_targets() if t.name in HIST_TARGET_NAMES]
+
+
+def mini_table(rec, bench, apps, label, base_k, state, desc, step):
+    """The reduced request table against the current state of one app pair; returns number of findings."""
+    cfg = tuple(tuple(x) if isinstance(x, list) else x for x in state)
+    policy = make_policy(cfg)
+    n = 0
+    for fw in ('wsgi', 'asgi'):
+        for tn, t in enumerate(hist_targets()):
+            for sn, shape in enumerate(HIST_SHAPES):
+                for on, origin in enumerate(HIST_ORIGINS):
+                    f = check_exchange(rec, bench, fw, label, apps[fw], cfg, policy, t, shape, origin,
+                                       ORIGIN_NAMES[(tn + sn + on) % 3], plan_spec=t.plan.spec() if t.plan else None,
+                                       base_k=base_k, extra={'history': desc, 'step': step})
+                    n += len(f)
+                    rec.count('hist.exchanges')
+    return n
+
+
+def _norm_spec(spec):
+    return (spec[0], list(spec[1]) if isinstance(spec[1], (list, tuple)) else spec[1])
+
+
+def history_reconfig(rec, bench, desc):
+    """Configuration installed / changed through the public attributes after __init__.
+
+    desc: how = 'assign' (running instance, requests before and after) | 'subclass' (a subclass initialiser calls
+    super().__init__(start...) and then sets attributes); start = constructor forms; steps = list of
+    {attribute: normalised value spec}."""
+    start = [_norm_spec(x) for x in desc['start']]
+    steps = desc['steps']
+    state = list(start)
+    try:
+        if desc['how'] == 'subclass':
+            first = steps[0]
+
+            class Configured(falcon.CORSMiddleware):
+                def __init__(self):
+                    super().__init__(allow_origins=materialize(start[0]), allow_credentials=materialize(start[1]),
+                                     expose_headers=materialize(start[2]))
+                    for attr, spec in first.items():
+                        setattr(self, attr, materialize(_norm_spec(spec)))
+            cors = Configured()
+            for attr, spec in first.items():
+                state[ATTRS.index(attr)] = _norm_spec(spec)
+            steps = steps[1:]
+            rec.count('hist.reconfig.subclass')
+        else:
+            cors = make_cors(tuple(start))
+        apps = {fw: build_app(fw, 'list', cors, bench.static_dir) for fw in ('wsgi', 'asgi')}
+    except Exception as e:  # noqa
+        rec.violation('legal-configuration-rejected', {'history': desc, 'exc': repr(e)})
+        return
+    label = 'history:reconfig-' + desc['how']
+    mini_table(rec, bench, apps, label, 'none', state, desc, 0)
+    for i, step in enumerate(steps):
+        before = make_policy(tuple(state))
+        for attr, spec in step.items():
+            setattr(cors, attr, materialize(_norm_spec(spec)))
+            state[ATTRS.index(attr)] = _norm_spec(spec)
+        after = make_policy(tuple(state))
+        rec.count('hist.reconfig.steps')
+        for o in HIST_ORIGINS:
+            if before.allowed(o) and not after.allowed(o):
+                rec.count('hist.reconfig.origin-tightened')
+            if not before.allowed(o) and after.allowed(o):
+                rec.count('hist.reconfig.origin-loosened')
+            if before.credentialed(o) != after.credentialed(o):
+                rec.count('hist.reconfig.credentials-changed')
+        mini_table(rec, bench, apps, label, 'none', state, desc, i + 1)
+
+
+def _mutate(obj, op, value):
+    if op == 'add':
+        obj.add(value) if isinstance(obj, set) else obj.append(value)
+    elif op == 'discard':
+        if isinstance(obj, set):
+            obj.discard(value)
+        elif value in obj:
+            obj.remove(value)
+    elif op == 'clear':
+        obj.clear()
+    elif op == 'update':
+        obj.update(value) if isinstance(obj, set) else obj.extend(value)
+
+
+def history_alias(rec, bench, desc):
+    """The caller keeps using (mutating) the collections it passed to the constructor.
+
+    desc: ao / ac / eh = forms (mutable kinds: list, set); share = the same object is passed as allow_origins and
+    allow_credentials; mutations = [(which, op, value)] applied to the caller's objects after construction."""
+    ao, ac, eh = [_norm_spec(desc[k]) for k in ('ao', 'ac', 'eh')]
+    objs = {'ao': materialize(ao), 'eh': materialize(eh)}
+    objs['ac'] = objs['ao'] if desc.get('share') else materialize(ac)
+    if desc.get('share'):
+        ac = ao
+    try:
+        cors = falcon.CORSMiddleware(allow_origins=objs['ao'], allow_credentials=objs['ac'], expose_headers=objs['eh'])
+        apps = {fw: build_app(fw, 'list', cors, bench.static_dir) for fw in ('wsgi', 'asgi')}
+    except Exception as e:  # noqa
+        rec.violation('legal-configuration-rejected', {'history': desc, 'exc': repr(e)})
+        return
+    state = [ao, ac, eh]            # the snapshot taken by the constructor IS the configuration
+    policy = make_policy(tuple(state))
+    mini_table(rec, bench, apps, 'history:alias', 'none', state, desc, 0)
+    for which, op, value in desc['mutations']:
+        if isinstance(objs[which], (set, list)):
+            _mutate(objs[which], op, value)
+            rec.count('hist.alias.mutations')
+            rec.count('hist.alias.mutated-' + type(objs[which]).__name__)
+    for o in HIST_ORIGINS:
+        if o is not None and not policy.allowed(o) and isinstance(objs['ao'], (set, list)) and o in objs['ao']:
+            rec.count('hist.alias.late-added-origin')
+        if o is not None and policy.allowed(o) and isinstance(objs['ao'], (set, list)) and o not in objs['ao']:
+            rec.count('hist.alias.late-removed-origin')
+        if o is not None and policy.allowed(o) and not policy.credentialed(o) \
+                and isinstance(objs['ac'], (set, list)) and o in objs['ac']:
+            rec.count('hist.alias.late-added-credential')
+    mini_table(rec, bench, apps, 'history:alias', 'none', state, desc, 1)
+
+
+def history_guard(rec, bench, desc):
+    """cors_enable=True app; an add_middleware() call refused by the duplicate guard is swallowed by the caller;
+    the app keeps being configured (empty / None / further legal components).  The only configuration the app
+    ever accepted is the default one.
+
+    desc: initial = None | 'other'; refused = 'bare' | 'list' | 'with-other'; then = list of 'empty-list' | 'none' |
+    'empty-tuple' | 'other' | 'other-list'."""
+    dstate = [('str', '*'), ('none', None), ('none', None)]
+    apps = {}
+    with_other = desc.get('initial') == 'other'
+    for fw in ('wsgi', 'asgi'):
+        cls = falcon.asgi.App if fw == 'asgi' else falcon.App
+        other = OtherA if fw == 'asgi' else OtherW
+        app = cls(cors_enable=True, middleware=[other()]) if with_other else cls(cors_enable=True)
+        refused = falcon.CORSMiddleware(allow_origins='*', allow_credentials='*', expose_headers='X-Refused')
+        arg = {'bare': refused, 'list': [refused], 'with-other': [other(), refused]}[desc['refused']]
+        try:
+            app.add_middleware(arg)
+        except ValueError:
+            rec.count('hist.guard.refused')
+        else:
+            rec.count('hist.guard.not-refused')     # judged by check_guard(); nothing to roll back here
+            return
+        app.add_route('/auto', AutoA() if fw == 'asgi' else AutoW())
+        app.add_route('/auto2/{ident}', Auto2A() if fw == 'asgi' else Auto2W())
+        app.add_route('/plan', PlanA() if fw == 'asgi' else PlanW())
+        app.add_sink(sink_a if fw == 'asgi' else sink_w, '/sink')
+        app.add_static_route('/static', bench.static_dir)
+        apps[fw] = (app, other)
+    label = 'history:guard'
+    has_other = with_other
+    mini_table(rec, bench, {fw: a for fw, (a, _) in apps.items()}, label, 'other' if has_other else 'none',
+               dstate, desc, 0)
+    for i, what in enumerate(desc['then']):
+        for fw, (app, other) in apps.items():
+            try:
+                app.add_middleware({'empty-list': [], 'none': None, 'empty-tuple': (), 'other': other(),
+                                    'other-list': [other()]}[what])
+            except Exception as e:  # noqa
+                rec.violation('legal-configuration-rejected', {'history': desc, 'step': i + 1, 'fw': fw, 'exc': repr(e)})
+                return
+        if what.startswith('other'):
+            if has_other:
+                return      # two "other" components: no twin for that, stop the history here
+            has_other = True
+        rec.count('hist.guard.reprepared')
+        mini_table(rec, bench, {fw: a for fw, (a, _) in apps.items()}, label, 'other' if has_other else 'none',
+                   dstate, desc, i + 1)
+
+
+HISTORY_KINDS = {'reconfig': history_reconfig, 'alias': history_alias, 'guard': history_guard}
+
+
+def history_descs():
+    out = []
+    # -- public-attribute reconfiguration: every ordered pair of values of one attribute, the other two fixed
+    for how in ('assign', 'subclass'):
+        for a in N_AO:
+            for b in N_AO:
+                if a == b:
+                    continue
+                for c in (N_AC[0], N_AC[1], N_AC[4]):
+                    out.append({'kind': 'reconfig', 'how': how, 'start': [a, c, N_EH[1]],
+                                'steps': [{'allow_origins': b}]})
+        for a in N_AC:
+            for b in N_AC:
+                if a == b:
+                    continue
+                for o in (N_AO[0], N_AO[2]):
+                    out.append({'kind': 'reconfig', 'how': how, 'start': [o, a, N_EH[0]],
+                                'steps': [{'allow_credentials': b}]})
+        for a in N_EH:
+            for b in N_EH:
+                if a != b:
+                    out.append({'kind': 'reconfig', 'how': how, 'start': [N_AO[0], N_AC[0], a],
+                                'steps': [{'expose_headers': b}]})
+    # the constructor defaults followed by a complete configuration through the attributes, and there-and-back
+    for o in N_AO[1:]:
+        for c in N_AC:
+            out.append({'kind': 'reconfig', 'how': 'subclass', 'start': [N_AO[0], N_AC[0], N_EH[0]],
+                        'steps': [{'allow_origins': o, 'allow_credentials': c, 'expose_headers': N_EH[2]}]})
+            out.append({'kind': 'reconfig', 'how': 'assign', 'start': [N_AO[0], N_AC[1], N_EH[0]],
+                        'steps': [{'allow_origins': o}, {'allow_credentials': c}, {'allow_origins': N_AO[0]}]})
+    # -- caller-owned collections mutated after construction
+    evil = 'https://evil.test'
+    muts = [
+        [('ao', 'add', evil)], [('ao', 'discard', OA)], [('ao', 'clear', None)], [('ao', 'update', [OC, evil])],
+        [('ac', 'add', OB)], [('ac', 'add', evil), ('ao', 'add', evil)], [('ac', 'clear', None)],
+        [('eh', 'add', 'X-Late')], [('ao', 'add', '*')],
+    ]
+    for ao in (('set', [OA]), ('set', [OA, OB]), ('list', [OA, OB]), ('frozenset', [OA, OB]), ('str', '*')):
+        for ac in (('none', None), ('str', '*'), ('set', [OA]), ('list', [OC]), ('set', [OA, OC])):
+            for m in muts:
+                if not any(dict(ao=ao, ac=ac, eh=('list', ['X-One']))[w][0] in ('set', 'list') for w, _, _ in m):
+                    continue
+                out.append({'kind': 'alias', 'ao': ao, 'ac': ac, 'eh': ('list', ['X-One']), 'mutations': m})
+    for ao in (('set', [OA]), ('set', [OA, OB]), ('list', [OB, OC])):
+        for m in muts[:4]:
+            out.append({'kind': 'alias', 'ao': ao, 'ac': ao, 'eh': ('none', None), 'share': True, 'mutations': m})
+    # -- refused add_middleware, then the app keeps being configured
+    for initial in (None, 'other'):
+        for refused in ('bare', 'list', 'with-other'):
+            for then in (['empty-list'], ['none'], ['empty-tuple'], ['other'], ['other-list'],
+                         ['empty-list', 'other', 'none']):
+                out.append({'kind': 'guard', 'initial': initial, 'refused': refused, 'then': then})
+    return out
+
+
+def histories(rec, bench):
+    for idx, desc in enumerate(history_descs()):
+        if idx % rec.nshards != rec.shard:
+            continue
+        rec.count('hist.' + desc['kind'])
+        rec.seen('histories', repr(desc))
+        HISTORY_KINDS[desc['kind']](rec, bench, desc)
+
+
 # ---- random part
 
 def rand_origin(rng):
@@ -834,7 +1095,9 @@ def run(rec):
                 'each x request origins (%d incl. absent, case/port/suffix variants, null, origin-list) x %d request '
                 'shapes x targets (auto-OPTIONS routes, %d responder plans on a route and on a sink, static route, '
                 'unrouted, other-middleware short-circuit/denial) x WSGI/ASGI x middleware contexts; plus random '
-                'configurations/histories. non-trivial = the request carries an Origin header; distinct by '
+                'configurations/histories; plus configuration histories (attribute reconfiguration on a running instance and '
+                'in a subclass initialiser, caller-owned collections mutated after construction, refused add_middleware '
+                'followed by further add_middleware calls) each followed by a reduced request table. non-trivial = the request carries an Origin header; distinct by '
                 '(framework, context, configuration, target, request shape, origin)'
                 % (len(AO_FORMS), len(AC_FORMS), len(EH_FORMS), len(REQUEST_ORIGINS), len(SHAPES), len(PLANS)))
     rec.assumptions = [
@@ -844,6 +1107,10 @@ def run(rec):
         'whether ordinary grants stay on a FAILED preflight exchange is left open (only approval is forbidden)',
         'HTTPStatus raised by an OPTIONS responder: success undetermined, only origin/credential cells judged',
         'twin app without the CORS component is the source of "what the responder produced"',
+        '"the configuration" = the value of the public attributes allow_origins / allow_credentials / expose_headers at '
+        'request time; the constructor snapshots its arguments into them, so later mutation of a collection the caller '
+        'passed does not change the configuration, an assignment to a public attribute (normalised form: "*" or a '
+        'frozenset, header string) does, and a component refused by the cors_enable guard never belongs to the app',
     ]
     logging.getLogger('falcon').disabled = True
     static_dir = tempfile.mkdtemp(prefix='verif-c20-')
@@ -854,6 +1121,7 @@ def run(rec):
         bench = Bench(static_dir)
         check_guard(rec, static_dir)
         exhaustive(rec, bench)
+        histories(rec, bench)
         rec.exhaustive = True
         if rec.shard == 0:
             rec.note('exhaustive over the configuration universe (quick: one expose form per allow_origins x '
@@ -881,6 +1149,14 @@ def run(rec):
         ('tgt.sc-allow', 30), ('tgt.sc-noallow', 30), ('tgt.deny', 30),
         ('tgt.qgate-unrouted', 30), ('tgt.qgate-noallow-route', 30), ('tgt.rgate-noallow-route', 30),
         ('random.configs', 32), ('random.exchanges', 1900),
+        # configuration histories (deterministic, identical in both tiers)
+        ('hist.exchanges', 40000), ('hist.reconfig', 190), ('hist.reconfig.steps', 120), ('hist.reconfig.subclass', 90),
+        ('hist.reconfig.origin-tightened', 60), ('hist.reconfig.origin-loosened', 60),
+        ('hist.reconfig.credentials-changed', 100),
+        ('hist.alias', 150), ('hist.alias.mutations', 150), ('hist.alias.mutated-set', 80),
+        ('hist.alias.mutated-list', 60), ('hist.alias.late-added-origin', 40), ('hist.alias.late-removed-origin', 30),
+        ('hist.alias.late-added-credential', 10),
+        ('hist.guard', 36), ('hist.guard.refused', 72), ('hist.guard.reprepared', 36),
     ] + [('tgt.%sgate-%s' % (st, g), 30) for st in 'qr' for g in GATES] + \
             [('pf.failed-with-allow.%s.%s' % (st, fw), 500) for st in ('mw-request', 'mw-resource', 'responder')
              for fw in ('wsgi', 'asgi')] + \
@@ -900,6 +1176,13 @@ def replay(rec, w):
         with open(os.path.join(static_dir, 'a.txt'), 'wb') as fh:
             fh.write(b'static file\n')
         os.utime(os.path.join(static_dir, 'a.txt'), (1700000000, 1700000000))
+        if 'history' in wit:
+            bench = Bench(static_dir)
+            desc = wit['history']
+            HISTORY_KINDS[desc['kind']](rec, bench, desc)
+            print('replayed history', desc, 'violations so far', rec.counters.get('violations', 0))
+            rec.case('replay-extra')
+            return
         if 'config' not in wit:
             check_guard(rec, static_dir)
             rec.case('guard')
